@@ -306,8 +306,6 @@ V("c17-realign-outside-coarse", "C17", "R17.1", "dask_array/_expr.py",
   "    if consolidate is coarse_blockdim and policy != \"coarse\":", "    if policy != \"coarse\":", expect="unify_chunks_expr")
 V("c17-limit-narrowed", "C17", "R17.2", "dask_array/_expr.py",
   "    if limit and consolidate is coarse_blockdim:", "    if limit and consolidate is coarse_blockdim and fine is None:", expect="unify_chunks_expr")
-V("c17-lower-skips-unify", "C17", "R17.3", "dask_array/_blockwise.py",
-  "        if self.align_arrays:\n            _, arrays, changed = unify_chunks_expr(*self.args)\n            if changed:\n                args = []", "        if self.align_arrays and len(self.args) > 4:\n            _, arrays, changed = unify_chunks_expr(*self.args)\n            if changed:\n                args = []", expect="Blockwise._lower")
 V("c17-operand-reused-by-name", "C17", "R17.5", "dask_array/_expr.py",
   "                if not (target_has_nan and source_is_known):\n                    a = a.rechunk(chunks)\n                    changed = True\n        arrays.append(a)",
   "                if not (target_has_nan and source_is_known):\n                    a = _done.setdefault(a._name, a.rechunk(chunks))\n                    changed = True\n        arrays.append(a)", expect="unify_chunks_expr")
@@ -537,3 +535,10 @@ V("c09-twin-pin-renamed", "C09", "-", "dask_array/_blockwise.py", None, None, tw
   ("dask_array/_blockwise.py", "    def _unify_config(self):", "    def _planned_under(self):"),
   ("dask_array/_blockwise.py", "        with config.set(self._unify_config):", "        with config.set(self._planned_under):"),
 ])
+
+V("c17-twin-unify-inlined", "C17", "-", "dask_array/_blockwise.py",
+  "    def _lower(self):\n        if self.align_arrays:\n            _, arrays, changed = self._unified_args()\n            if changed:\n                args = []",
+  "    def _lower(self):\n        if self.align_arrays:\n            _, arrays, changed = unify_chunks_expr(*self.args)\n            if changed:\n                args = []", twin=True)
+V("c17-lower-skips-unify", "C17", "R17.3", "dask_array/_blockwise.py",
+  "    def _lower(self):\n        if self.align_arrays:\n            _, arrays, changed = self._unified_args()\n            if changed:\n                args = []",
+  "    def _lower(self):\n        if self.align_arrays:\n            arrays, changed = list(self.args[::2]), False\n            if changed:\n                args = []", expect="Blockwise._lower")
